@@ -86,6 +86,14 @@ Proof.
 Qed.
 Print Assumptions establishment_settled_by_its_own_timeout.
 
+(* the same race for the TLS handshake of the real listener: a peer that never completes its ClientHello
+   (or never sends one) is dropped when the handshake timeout expires *)
+Theorem stalled_handshake_dropped_by_handshake_timeout :
+  forall hs other,
+    establish (CLIENT_HELLO_UNDER_HANDSHAKE_TIMEOUT && TLS_ACCEPT_UNDER_HANDSHAKE_TIMEOUT) hs other None = EFailed hs.
+Proof. intros hs other. reflexivity. Qed.
+Print Assumptions stalled_handshake_dropped_by_handshake_timeout.
+
 (* what the guarded mix-up does: under the idle timeout of established tunnels (a week by default) an
    unanswered connect is still pending long after the establishment timeout *)
 Example ex_establish_mixup : establish false 400 604800000 None = EFailed 604800000 /\ establish true 400 604800000 None = EFailed 400.
@@ -99,7 +107,7 @@ Theorem establishment_timeouts_in_place :
   CONNECT_UNDER_ESTABLISHMENT_TIMEOUT = true /\ TIMEOUT_REPORTED_AS_502_302 = true
   /\ TLS_ACCEPT_UNDER_HANDSHAKE_TIMEOUT = true /\ PIPE_RUN_WITH_TCP_TIMEOUT = true
   /\ PIPE_EXPIRY_AS_MODELLED = true /\ PIPE_AWAITS_AS_MODELLED = true
-  /\ LISTENER_TIMEOUT_SPARES_ACTIVE_SESSIONS = true.
+  /\ LISTENER_TIMEOUT_SPARES_ACTIVE_SESSIONS = true /\ CLIENT_HELLO_UNDER_HANDSHAKE_TIMEOUT = true.
 Proof. repeat split; exact eq_refl. Qed.
 Print Assumptions establishment_timeouts_in_place.
 
